@@ -481,6 +481,10 @@ func (option *Option) call(value *string) error {
 	if value == nil {
 		retval = option.value.Call(nil)
 	} else {
+		if option.value.Type().NumIn() == 0 {
+			return newErrorf(ErrNoArgumentForBool, "option `%s' does not take an argument", option)
+		}
+
 		tp := option.value.Type().In(0)
 
 		val := reflect.New(tp)
